@@ -1,25 +1,29 @@
-/- C15 — helper lemmas for "no lookup is lost": under `freshRun` every issued lookup is
-outstanding, called back, cancelled or was refused.  Core Lean only. -/
+/- C15 — helper lemmas for "no lookup is lost": unless a 16-bit id was handed out while still
+outstanding / still in the ring (`idReuse`), every issued lookup is outstanding, called back,
+cancelled or was refused — also for lookups issued and cancelled from inside callbacks.
+Core Lean only. -/
 import TboxModel.C15.Pending
 namespace Tbox.C15
 
 /-- keys of `requests_` are distinct (it is a `std::map`) -/
 def KU (st : St) : Prop := (st.reqs.map (·.1)).Nodup
 
-/-- every entry of `st.reqs` is still in `st'.reqs` (same serial) or its callback is in `evs` -/
-def Leaves (st st' : St) (evs : List Event) : Prop :=
-  ∀ e ∈ st.reqs, (∃ e' ∈ st'.reqs, e'.2.serial = e.2.serial) ∨ e.2.serial ∈ evs.map (·.serial)
+/-- every issued lookup is accounted for -/
+def Acc (st : St) : Prop :=
+  ∀ s, s < st.nextSerial →
+    s ∈ st.called ∨ s ∈ st.cancelled ∨ s ∈ st.refused ∨ ∃ e ∈ st.reqs, e.2.serial = s
 
-theorem Leaves.refl (st : St) : Leaves st st [] := fun e he => Or.inl ⟨e, he, rfl⟩
+/-- `idReuse` only ever rises, and while it is down a transition keeps the accounting -/
+def Pres (st st' : St) : Prop :=
+  st'.idReuse = false → st.idReuse = false ∧ (KU st → Acc st → KU st' ∧ Acc st')
 
-theorem Leaves.trans {st st1 st2 : St} {e1 e2 : List Event} (h1 : Leaves st st1 e1) (h2 : Leaves st1 st2 e2) :
-    Leaves st st2 (e1 ++ e2) := by
-  intro e he
-  rcases h1 e he with ⟨e', he', hs⟩ | h
-  · rcases h2 e' he' with ⟨e'', he'', hs'⟩ | h
-    · exact Or.inl ⟨e'', he'', hs'.trans hs⟩
-    · right; rw [List.map_append]; exact List.mem_append.mpr (Or.inr (hs ▸ h))
-  · right; rw [List.map_append]; exact List.mem_append.mpr (Or.inl h)
+theorem Pres.refl (st : St) : Pres st st := fun h => ⟨h, fun k a => ⟨k, a⟩⟩
+
+theorem Pres.trans {a b c : St} (h1 : Pres a b) (h2 : Pres b c) : Pres a c := by
+  intro hc
+  obtain ⟨hb, f2⟩ := h2 hc
+  obtain ⟨ha, f1⟩ := h1 hb
+  exact ⟨ha, fun k a => let r := f1 k a; f2 r.1 r.2⟩
 
 theorem key_inj (l : List (Nat × Req)) (hnd : (l.map (·.1)).Nodup) {e e' : Nat × Req}
     (h1 : e ∈ l) (h2 : e' ∈ l) (heq : e.1 = e'.1) : e = e' := by
@@ -42,20 +46,6 @@ theorem mem_erase_of_ne {reqs : List (Nat × Req)} {id : Nat} {e : Nat × Req} (
   unfold erase
   exact List.mem_filter.mpr ⟨h, by simpa using hne⟩
 
-theorem ku_erase {st : St} (id : Nat) (h : KU st) : KU { st with reqs := erase st.reqs id } :=
-  List.Nodup.sublist (erase_keys_sublist _ _) h
-
-theorem finish_leaves {st : St} {id : Nat} {r : Req} (res : Result) (hk : KU st) (hf : find st.reqs id = some r) :
-    Leaves st (finish st id r res).1 (finish st id r res).2 ∧ KU (finish st id r res).1 := by
-  refine ⟨?_, ku_erase id hk⟩
-  intro e he
-  by_cases hid : e.1 = id
-  · right
-    have : e = (id, r) := key_inj st.reqs hk he (find_mem hf) hid
-    subst this
-    simp [finish]
-  · exact Or.inl ⟨e, mem_erase_of_ne he hid, rfl⟩
-
 theorem find_none {reqs : List (Nat × Req)} {id : Nat} (h : find reqs id = none) : ∀ e ∈ reqs, e.1 ≠ id := by
   intro e he heq
   unfold find at h
@@ -72,207 +62,274 @@ theorem bump_keys (reqs : List (Nat × Req)) (id : Nat) :
   simp only [Function.comp]
   split <;> rfl
 
-theorem applyReply_leaves {st : St} (rep : Reply) (hk : KU st) :
-    Leaves st (applyReply st rep).1 (applyReply st rep).2 ∧ KU (applyReply st rep).1 := by
+theorem lookup_pres (st : St) (sid : Nat) : Pres st (lookup st sid).1 := by
+  unfold lookup
+  by_cases hs0 : st.servers = 0
+  · simp only [hs0, if_true]
+    intro hf
+    refine ⟨hf, fun hk ha => ⟨hk, ?_⟩⟩
+    intro s hs
+    by_cases hlt : s < st.nextSerial
+    · rcases ha s hlt with h1 | h1 | h1 | h1
+      · exact Or.inl h1
+      · exact Or.inr (Or.inl h1)
+      · exact Or.inr (Or.inr (Or.inl (List.mem_append.mpr (Or.inl h1))))
+      · exact Or.inr (Or.inr (Or.inr h1))
+    · have : s = st.nextSerial := by
+        have : s < st.nextSerial + 1 := hs
+        omega
+      exact Or.inr (Or.inr (Or.inl (List.mem_append.mpr (Or.inr (by simp [this])))))
+  · simp only [hs0, if_false]
+    intro hf
+    have hf' : st.idReuse = false ∧ find st.reqs ((st.alloc + 1) % 65536) = none := by
+      simp only [Bool.or_eq_false_iff] at hf
+      refine ⟨hf.1.1, ?_⟩
+      have := hf.1.2
+      cases hfind : find st.reqs ((st.alloc + 1) % 65536) <;> simp_all
+    refine ⟨hf'.1, fun hk ha => ⟨?_, ?_⟩⟩
+    · show (List.map _ (_ :: erase st.reqs _)).Nodup
+      simp only [List.map_cons, List.nodup_cons]
+      refine ⟨?_, List.Nodup.sublist (erase_keys_sublist _ _) hk⟩
+      intro hm
+      obtain ⟨e, he, hke⟩ := List.mem_map.mp hm
+      exact (mem_erase he).2 hke
+    · have hno := find_none hf'.2
+      intro s hs
+      by_cases hlt : s < st.nextSerial
+      · rcases ha s hlt with h1 | h1 | h1 | ⟨e, he, hse⟩
+        · exact Or.inl h1
+        · exact Or.inr (Or.inl h1)
+        · exact Or.inr (Or.inr (Or.inl h1))
+        · exact Or.inr (Or.inr (Or.inr ⟨e, List.mem_cons_of_mem _ (mem_erase_of_ne he (hno e he)), hse⟩))
+      · have : s = st.nextSerial := by
+          have : s < st.nextSerial + 1 := hs
+          omega
+        exact Or.inr (Or.inr (Or.inr ⟨_, List.mem_cons_self, this.symm⟩))
+
+theorem cancel_pres (st : St) (id : Nat) : Pres st (cancel st id).1 := by
+  unfold cancel
+  cases hf : find st.reqs id with
+  | none => exact Pres.refl st
+  | some r =>
+    dsimp only
+    intro hfl
+    refine ⟨hfl, fun hk ha => ⟨List.Nodup.sublist (erase_keys_sublist _ _) hk, ?_⟩⟩
+    intro s hs
+    rcases ha s hs with h1 | h1 | h1 | ⟨e, he, rfl⟩
+    · exact Or.inl h1
+    · exact Or.inr (Or.inl (List.mem_append.mpr (Or.inl h1)))
+    · exact Or.inr (Or.inr (Or.inl h1))
+    · by_cases hid : e.1 = id
+      · have : e = (id, r) := key_inj st.reqs hk he (find_mem hf) hid
+        subst this
+        exact Or.inr (Or.inl (List.mem_append.mpr (Or.inr (by simp))))
+      · exact Or.inr (Or.inr (Or.inr ⟨e, mem_erase_of_ne he hid, rfl⟩))
+
+theorem runScript_pres (self : Nat) : ∀ (acts : List Act) (st : St), Pres st (runScript self st acts).1 := by
+  intro acts
+  induction acts with
+  | nil => intro st; exact Pres.refl st
+  | cons a as ih =>
+    intro st
+    cases a with
+    | lookup sid => simpa [runScript] using (lookup_pres st sid).trans (ih _)
+    | cancel id => simpa [runScript] using (cancel_pres st id).trans (ih _)
+    | cancelSelf => simpa [runScript] using (cancel_pres st self).trans (ih _)
+
+theorem finish_pres (st : St) (id : Nat) (r : Req) (res : Result) : Pres st (finish st id r res).1 := by
+  have hs := runScript_pres id r.script st
+  unfold finish
+  generalize runScript id st r.script = rs at hs
+  obtain ⟨st1, outs⟩ := rs
+  simp only at hs ⊢
+  refine hs.trans ?_
+  intro hfl
+  have hfl' : st1.idReuse = false ∧ (st1.reqs.any fun e => e.1 == id && e.2.serial != r.serial) = false := by
+    simpa [Bool.or_eq_false_iff] using hfl
+  refine ⟨hfl'.1, fun hk ha => ⟨List.Nodup.sublist (erase_keys_sublist _ _) hk, ?_⟩⟩
+  intro s hlt
+  rcases ha s hlt with h1 | h1 | h1 | ⟨e, he, rfl⟩
+  · exact Or.inl (List.mem_append.mpr (Or.inl h1))
+  · exact Or.inr (Or.inl h1)
+  · exact Or.inr (Or.inr (Or.inl h1))
+  · by_cases hid : e.1 = id
+    · left
+      have := List.any_eq_false.mp hfl'.2 e he
+      simp [hid] at this
+      exact List.mem_append.mpr (Or.inr (by simp [this]))
+    · exact Or.inr (Or.inr (Or.inr ⟨e, mem_erase_of_ne he hid, rfl⟩))
+
+theorem applyReply_pres (st : St) (rep : Reply) : Pres st (applyReply st rep).1 := by
   cases rep with
-  | ignore => exact ⟨Leaves.refl st, hk⟩
+  | ignore => exact Pres.refl st
   | answer id a c =>
     simp only [applyReply]
-    cases hf : find st.reqs id with
-    | none => exact ⟨Leaves.refl st, hk⟩
-    | some r => exact finish_leaves _ hk hf
+    split
+    · exact Pres.refl st
+    · exact finish_pres _ _ _ _
   | rcode id rc =>
     simp only [applyReply]
-    cases hf : find st.reqs id with
-    | none => exact ⟨Leaves.refl st, hk⟩
-    | some r =>
-      simp only
-      split
-      · exact finish_leaves _ hk hf
+    split
+    · exact Pres.refl st
+    · split
+      · exact finish_pres _ _ _ _
       · split
-        · exact finish_leaves _ hk hf
+        · exact finish_pres _ _ _ _
         · split
-          · refine ⟨?_, ?_⟩
-            · intro e he
-              left
-              refine ⟨_, List.mem_map.mpr ⟨e, he, rfl⟩, ?_⟩
-              split <;> rfl
+          · intro hfl
+            refine ⟨hfl, fun hk ha => ⟨?_, ?_⟩⟩
             · show (List.map _ (List.map _ st.reqs)).Nodup
               rw [bump_keys]; exact hk
-          · exact finish_leaves _ hk hf
+            · intro s hs
+              rcases ha s hs with h1 | h1 | h1 | ⟨e, he, rfl⟩
+              · exact Or.inl h1
+              · exact Or.inr (Or.inl h1)
+              · exact Or.inr (Or.inr (Or.inl h1))
+              · refine Or.inr (Or.inr (Or.inr ⟨_, List.mem_map.mpr ⟨e, he, rfl⟩, ?_⟩))
+                split <;> rfl
+          · exact finish_pres _ _ _ _
 
-theorem onRecv_leaves {st : St} (d : List Byte) (hk : KU st) :
-    Leaves st (onRecv st d).1 (onRecv st d).2 ∧ KU (onRecv st d).1 := by
+theorem onRecv_pres (st : St) (d : List Byte) : Pres st (onRecv st d).1 := by
   unfold onRecv
   split
-  · exact ⟨Leaves.refl st, hk⟩
+  · exact Pres.refl st
   · split
-    · exact applyReply_leaves _ hk
-    · exact ⟨Leaves.refl st, hk⟩
+    · exact applyReply_pres _ _
+    · exact Pres.refl st
 
-theorem foldl_onTimeout_leaves {st0 : St} (items : List Nat) :
-    ∀ (acc : St × List Event), Leaves st0 acc.1 acc.2 ∧ KU acc.1 →
-      Leaves st0 (items.foldl onTimeout acc).1 (items.foldl onTimeout acc).2 ∧ KU (items.foldl onTimeout acc).1 := by
+theorem foldl_onTimeout_pres {st0 : St} (items : List Nat) :
+    ∀ (acc : St × List Event), Pres st0 acc.1 → Pres st0 (items.foldl onTimeout acc).1 := by
   induction items with
   | nil => intro acc h; exact h
   | cons x l ih =>
     intro acc h
     apply ih
     unfold onTimeout
-    cases hf : find acc.1.reqs x with
-    | none => exact h
-    | some r =>
-      have := finish_leaves { status := .timeout } h.2 hf
-      exact ⟨h.1.trans this.1, this.2⟩
+    split
+    · exact h
+    · rename_i r _
+      exact h.trans (finish_pres acc.1 x r { status := .timeout })
 
-theorem tick_leaves {st : St} (hk : KU st) : Leaves st (tick st).1 (tick st).2 ∧ KU (tick st).1 := by
+theorem tick_pres (st : St) : Pres st (tick st).1 := by
   unfold tick
   split
-  · exact ⟨Leaves.refl st, hk⟩
-  · apply foldl_onTimeout_leaves
-    exact ⟨fun e he => Or.inl ⟨e, he, rfl⟩, hk⟩
+  · exact Pres.refl st
+  · apply foldl_onTimeout_pres
+    exact fun h => ⟨h, fun k a => ⟨k, a⟩⟩
 
-/-- every issued lookup is accounted for -/
-def Acc (st : St) (h : Hist) : Prop :=
-  ∀ s, s < st.nextSerial →
-    s ∈ h.called ∨ s ∈ h.cancelled ∨ s ∈ h.refused ∨ ∃ e ∈ st.reqs, e.2.serial = s
-
-/-- generic preservation: histories only grow, entries only leave through a callback -/
-theorem acc_of_leaves {st st' : St} {h : Hist} {evs : List Event} (ha : Acc st h)
-    (hl : Leaves st st' evs) (hn : st'.nextSerial = st.nextSerial) :
-    Acc st' { h with called := h.called ++ evs.map (·.serial) } := by
-  intro s hs
-  rw [hn] at hs
-  rcases ha s hs with h1 | h1 | h1 | ⟨e, he, rfl⟩
-  · exact Or.inl (List.mem_append.mpr (Or.inl h1))
-  · exact Or.inr (Or.inl h1)
-  · exact Or.inr (Or.inr (Or.inl h1))
-  · rcases hl e he with ⟨e', he', hs'⟩ | h2
-    · exact Or.inr (Or.inr (Or.inr ⟨e', he', hs'⟩))
-    · exact Or.inl (List.mem_append.mpr (Or.inr h2))
-
-theorem applyReply_nextSerial (st : St) (rep : Reply) : (applyReply st rep).1.nextSerial = st.nextSerial := by
-  cases rep <;> simp only [applyReply] <;> repeat' (first | rfl | split)
-
-theorem onRecv_nextSerial (st : St) (d : List Byte) : (onRecv st d).1.nextSerial = st.nextSerial := by
-  unfold onRecv
-  split
-  · rfl
-  · split
-    · exact applyReply_nextSerial _ _
-    · rfl
-
-theorem foldl_onTimeout_nextSerial (items : List Nat) :
-    ∀ acc : St × List Event, (items.foldl onTimeout acc).1.nextSerial = acc.1.nextSerial := by
-  induction items with
-  | nil => intro acc; rfl
-  | cons x l ih =>
-    intro acc
-    rw [List.foldl_cons, ih]
-    unfold onTimeout
-    split <;> rfl
-
-theorem tick_nextSerial (st : St) : (tick st).1.nextSerial = st.nextSerial := by
-  unfold tick
-  split
-  · rfl
-  · simp only [foldl_onTimeout_nextSerial]
-
-theorem step_acc {st : St} {h : Hist} (op : Op) (hk : KU st) (ha : Acc st h)
-    (hfresh : freshRun st [op] = true) :
-    Acc (step st op).1 (histStep st h op) ∧ KU (step st op).1 := by
+theorem step_pres (st : St) (op : Op) : Pres st (step st op).1 := by
   cases op with
-  | servers n =>
-    refine ⟨?_, hk⟩
-    have := acc_of_leaves (st' := { st with servers := n }) (evs := []) ha (fun e he => Or.inl ⟨e, he, rfl⟩) rfl
-    simpa [histStep, step] using this
-  | running id =>
-    refine ⟨?_, hk⟩
-    have := acc_of_leaves (evs := []) ha (Leaves.refl st) rfl
-    simpa [histStep, step] using this
-  | recv d =>
-    have hl := onRecv_leaves d hk
-    refine ⟨?_, hl.2⟩
-    have := acc_of_leaves ha hl.1 (onRecv_nextSerial st d)
-    simpa [histStep, step] using this
-  | tick =>
-    have hl := tick_leaves hk
-    refine ⟨?_, hl.2⟩
-    have := acc_of_leaves ha hl.1 (tick_nextSerial st)
-    simpa [histStep, step] using this
-  | cancel id =>
-    simp only [step, histStep, cancel]
-    cases hf : find st.reqs id with
-    | none =>
-      refine ⟨?_, hk⟩
-      have := acc_of_leaves (evs := []) ha (Leaves.refl st) rfl
-      simpa using this
-    | some r =>
-      refine ⟨?_, ku_erase id hk⟩
-      intro s hs
-      rcases ha s hs with h1 | h1 | h1 | ⟨e, he, rfl⟩
-      · exact Or.inl (by simpa using h1)
-      · exact Or.inr (Or.inl (List.mem_append.mpr (Or.inl h1)))
-      · exact Or.inr (Or.inr (Or.inl h1))
-      · by_cases hid : e.1 = id
-        · have : e = (id, r) := key_inj st.reqs hk he (find_mem hf) hid
-          subst this
-          exact Or.inr (Or.inl (List.mem_append.mpr (Or.inr (by simp))))
-        · exact Or.inr (Or.inr (Or.inr ⟨e, mem_erase_of_ne he hid, rfl⟩))
-  | lookup =>
-    simp only [step, histStep, lookup]
-    by_cases hs0 : st.servers = 0
-    · simp only [hs0, if_true]
-      refine ⟨?_, hk⟩
-      intro s hs
-      by_cases hlt : s < st.nextSerial
-      · rcases ha s hlt with h1 | h1 | h1 | h1
-        · exact Or.inl (by simpa using h1)
-        · exact Or.inr (Or.inl h1)
-        · exact Or.inr (Or.inr (Or.inl (List.mem_append.mpr (Or.inl h1))))
-        · exact Or.inr (Or.inr (Or.inr h1))
-      · have : s = st.nextSerial := by
-          have : s < st.nextSerial + 1 := hs
-          omega
-        exact Or.inr (Or.inr (Or.inl (List.mem_append.mpr (Or.inr (by simp [this])))))
-    · simp only [hs0, if_false]
-      have hfr : find st.reqs ((st.alloc + 1) % 65536) = none := by
-        simp [freshRun, hs0] at hfresh
-        exact hfresh
-      have hno := find_none hfr
-      refine ⟨?_, ?_⟩
-      · intro s hs
-        by_cases hlt : s < st.nextSerial
-        · rcases ha s hlt with h1 | h1 | h1 | ⟨e, he, hse⟩
-          · exact Or.inl (by simpa using h1)
-          · exact Or.inr (Or.inl h1)
-          · exact Or.inr (Or.inr (Or.inl h1))
-          · exact Or.inr (Or.inr (Or.inr ⟨e, List.mem_cons_of_mem _ (mem_erase_of_ne he (hno e he)), hse⟩))
-        · have : s = st.nextSerial := by
-            have : s < st.nextSerial + 1 := hs
-            omega
-          exact Or.inr (Or.inr (Or.inr ⟨_, List.mem_cons_self, this.symm⟩))
-      · show (List.map _ (_ :: erase st.reqs _)).Nodup
-        simp only [List.map_cons, List.nodup_cons]
-        refine ⟨?_, List.Nodup.sublist (erase_keys_sublist _ _) hk⟩
-        intro hm
-        obtain ⟨e, he, hke⟩ := List.mem_map.mp hm
-        exact (mem_erase he).2 hke
+  | servers n => exact fun h => ⟨h, fun k a => ⟨k, a⟩⟩
+  | defScript acts => exact fun h => ⟨h, fun k a => ⟨k, a⟩⟩
+  | lookup sid => exact lookup_pres st sid
+  | cancel id => exact cancel_pres st id
+  | running id => exact Pres.refl st
+  | recv d => exact onRecv_pres st d
+  | tick => exact tick_pres st
 
-theorem runH_acc : ∀ (ops : List Op) (st : St) (h : Hist), KU st → Acc st h → freshRun st ops = true →
-    Acc (runH st h ops).1 (runH st h ops).2 := by
+theorem run_pres : ∀ (ops : List Op) (st : St), Pres st (run st ops).1 := by
   intro ops
   induction ops with
-  | nil => intro st h _ ha _; exact ha
+  | nil => intro st; exact Pres.refl st
+  | cons op ops ih => intro st; simpa [run] using (step_pres st op).trans (ih _)
+
+/-! ### the ghost log `called` is exactly the list of callback invocations -/
+
+def CalledOK (st st' : St) (evs : List Event) : Prop := st'.called = st.called ++ evs.map (·.serial)
+
+theorem CalledOK.refl (st : St) : CalledOK st st [] := by simp [CalledOK]
+
+theorem CalledOK.trans {a b c : St} {e1 e2 : List Event} (h1 : CalledOK a b e1) (h2 : CalledOK b c e2) :
+    CalledOK a c (e1 ++ e2) := by
+  unfold CalledOK at *
+  rw [h2, h1, List.map_append, List.append_assoc]
+
+theorem runScript_called (self : Nat) : ∀ (acts : List Act) (st : St), (runScript self st acts).1.called = st.called := by
+  intro acts
+  induction acts with
+  | nil => intro st; rfl
+  | cons a as ih =>
+    intro st
+    cases a with
+    | lookup sid =>
+      simp only [runScript]; rw [ih]; unfold lookup; split <;> rfl
+    | cancel id =>
+      simp only [runScript]; rw [ih]; unfold cancel; split <;> rfl
+    | cancelSelf =>
+      simp only [runScript]; rw [ih]; unfold cancel; split <;> rfl
+
+theorem finish_called (st : St) (id : Nat) (r : Req) (res : Result) :
+    CalledOK st (finish st id r res).1 (finish st id r res).2 := by
+  have := runScript_called id r.script st
+  unfold finish CalledOK
+  generalize runScript id st r.script = rs at this
+  obtain ⟨st1, outs⟩ := rs
+  simp only at this ⊢
+  rw [this]; rfl
+
+theorem applyReply_called (st : St) (rep : Reply) : CalledOK st (applyReply st rep).1 (applyReply st rep).2 := by
+  cases rep with
+  | ignore => exact CalledOK.refl st
+  | answer id a c =>
+    simp only [applyReply]
+    split
+    · exact CalledOK.refl st
+    · exact finish_called _ _ _ _
+  | rcode id rc =>
+    simp only [applyReply]
+    split
+    · exact CalledOK.refl st
+    · split
+      · exact finish_called _ _ _ _
+      · split
+        · exact finish_called _ _ _ _
+        · split
+          · simp [CalledOK]
+          · exact finish_called _ _ _ _
+
+theorem foldl_onTimeout_called {st0 : St} (items : List Nat) :
+    ∀ (acc : St × List Event), CalledOK st0 acc.1 acc.2 →
+      CalledOK st0 (items.foldl onTimeout acc).1 (items.foldl onTimeout acc).2 := by
+  induction items with
+  | nil => intro acc h; exact h
+  | cons x l ih =>
+    intro acc h
+    apply ih
+    unfold onTimeout
+    split
+    · exact h
+    · rename_i r _
+      exact h.trans (finish_called acc.1 x r { status := .timeout })
+
+theorem step_called (st : St) (op : Op) : CalledOK st (step st op).1 (step st op).2.events := by
+  cases op with
+  | servers n => simp [CalledOK, step]
+  | defScript acts => simp [CalledOK, step]
+  | lookup sid => simp only [step, CalledOK]; unfold lookup; split <;> simp
+  | cancel id => simp only [step, CalledOK]; unfold cancel; split <;> simp
+  | running id => simp [CalledOK, step]
+  | recv d =>
+    simp only [step]
+    unfold onRecv
+    split
+    · exact CalledOK.refl st
+    · split
+      · exact applyReply_called _ _
+      · exact CalledOK.refl st
+  | tick =>
+    simp only [step]
+    unfold tick
+    split
+    · exact CalledOK.refl st
+    · apply foldl_onTimeout_called
+      simp [CalledOK]
+
+theorem run_called : ∀ (ops : List Op) (st : St), CalledOK st (run st ops).1 (allEvents (run st ops).2) := by
+  intro ops
+  induction ops with
+  | nil => intro st; exact CalledOK.refl st
   | cons op ops ih =>
-    intro st h hk ha hf
-    have hf1 : freshRun st [op] = true := by
-      simp only [freshRun, Bool.and_eq_true] at hf ⊢
-      exact ⟨hf.1, trivial⟩
-    have hf2 : freshRun (step st op).1 ops = true := by
-      simp only [freshRun, Bool.and_eq_true] at hf
-      exact hf.2
-    have := step_acc op hk ha hf1
-    exact ih _ _ this.2 this.1 hf2
+    intro st
+    simpa [run, allEvents] using (step_called st op).trans (ih _)
 
 end Tbox.C15
